@@ -36,6 +36,7 @@ type Program struct {
 	regionsCache   *regionAnalysis
 	Yacc           []*yaccInfo
 	panicCls       map[*ssa.Function]string
+	writtenFams    map[string]bool
 }
 
 func (P *Program) readSrc(name string) []byte {
